@@ -83,6 +83,12 @@ def gear_pair_case(rng):
         c['helix'] = q('Angle', math.radians(rng.choice([0.0, rng.uniform(1, 60), rng.uniform(60, 89)])), rng, ru)
     c['dT'] = [q('Torque', rng.uniform(-50, 50), rng, ru), q('Torque', rng.uniform(-50, 50), rng, ru)]
     c['lT'] = [q('Torque', rng.uniform(-50, 50), rng, ru), q('Torque', rng.uniform(-50, 50), rng, ru)]
+    if rng.random() < 0.3:
+        # a previous life: the gear was mated with another gear and its force / stresses were computed, then the
+        # relation is re-declared with the mate under test
+        c['pre'] = {'who': rng.choice([[0], [1], [0, 1]]), 'z': rng.randint(10, 150),
+                    'm': q('Length', rng.choice([0.5, 1, 2, 4]) * 1e-3, rng, ru), 'fw': q('Length', rng.uniform(2, 60) * 1e-3, rng, ru),
+                    'E': q('Stress', rng.uniform(1, 400) * 1e9, rng, ru), 'T': q('Torque', rng.uniform(-50, 50), rng, ru)}
     return c
 
 
@@ -101,6 +107,26 @@ def build_pair(c):
         else:
             g = HelicalGear(name=f'g{i}', n_teeth=c['z'][i], inertia_moment=J, helix_angle=Q('Angle', c['helix']), **kw)
         gs.append(g)
+    pre = c.get('pre')
+    if pre:
+        for i in pre['who']:
+            kw = dict(face_width=Q('Length', pre['fw']), elastic_modulus=Q('Stress', pre['E']))
+            if c['has'][i][0]:
+                kw['module'] = Q('Length', c['module'][i])      # mating gears must share the module
+            old = SpurGear(name='old', n_teeth=pre['z'], inertia_moment=J, **kw) if c['kind'] == 'spur' else \
+                HelicalGear(name='old', n_teeth=pre['z'], inertia_moment=J, helix_angle=Q('Angle', c['helix']), **kw)
+            add_gear_mating(gs[i], old, 0.8) if i == 0 else add_gear_mating(old, gs[i], 0.8)
+            gs[i].driving_torque = Q('Torque', pre['T'])
+            gs[i].load_torque = Q('Torque', pre['T'])
+            try:
+                if gs[i].tangential_force_is_computable:
+                    gs[i].compute_tangential_force()
+                    if gs[i].bending_stress_is_computable:
+                        gs[i].compute_bending_stress()
+                        if gs[i].contact_stress_is_computable:
+                            gs[i].compute_contact_stress()
+            except Exception:  # noqa: BLE001
+                pass
     add_gear_mating(gs[0], gs[1], 0.9)
     for i in (0, 1):
         gs[i].driving_torque = Q('Torque', c['dT'][i])
@@ -112,7 +138,7 @@ def eval_pair(ctx, cases, lewis_tbl):
     lines, owners = [], []
     for c in cases:
         ctx.case_done(c, nontrivial=True)
-        ctx.count('pair ' + c['kind'])
+        ctx.count('pair ' + c['kind'] + (' (re-declared after an earlier mating)' if c.get('pre') else ''))
         try:
             gs = build_pair(c)
         except Exception as ex:  # noqa: BLE001
